@@ -632,6 +632,18 @@ func (s *Stream) ProcessSync(data map[string]any) (map[string]any, error) {
 		return nil, fmt.Errorf("Synchronous processing is not supported for MATCH_RECOGNIZE queries.")
 	}
 
+	// A synchronous call runs the sinks on the caller's goroutine. Track it like the
+	// pipeline goroutines (same startMu protocol as Start) so that Stop returns only
+	// once no in-flight call can still invoke a sink, and refuse calls after Stop.
+	s.startMu.Lock()
+	if atomic.LoadInt32(&s.stopped) != 0 {
+		s.startMu.Unlock()
+		return nil, fmt.Errorf("stream is stopped")
+	}
+	s.lifecycle.Add(1)
+	s.startMu.Unlock()
+	defer s.lifecycle.Done()
+
 	// Directly process data and return result. processDirectDataSync applies the
 	// filter after JOIN enrichment so WHERE can reference joined columns.
 	return s.processDirectDataSync(data)
